@@ -48,7 +48,7 @@ OPS = ["set", "set", "set", "set", "reject", "reject", "del", "rename_ds", "rena
 
 
 def budget(tier):
-    return {"quick": dict(examples=2000, shards=1), "thorough": dict(examples=15000, shards=16)}[tier]
+    return {"quick": dict(examples=3500, shards=1), "thorough": dict(examples=15000, shards=16)}[tier]
 
 
 def strategy(tier):
